@@ -106,6 +106,7 @@ def check(ctx):
     check_tree_and_parents_agree(ctx)
     check_lookup_superset_tolerated(ctx)
     check_tree_queried_with_own_nodes(ctx)
+    check_validator_keys_maintained(ctx)
     # the level that was dropped is filled in from the finer assignment by
     # the parent table of *that* level (shared with C01)
     from .C01 import check_backfill
@@ -748,3 +749,57 @@ def check_tree_queried_with_own_nodes(
     if n < 2:
         raise AnalysisError(f'only {n} tree queries found in the marker '
                             'reconciliation code')
+
+
+def check_validator_keys_maintained(ctx,
+                                    rule='R-AGREE/validator-vs-reducers'):
+    """flatten() and drop_level() build their result by copying the
+    tree's data, rewriting the hierarchy and the level tables, and handing
+    the copy to the constructor -- which validates it.  Every other key of
+    the data the validator *inspects* (a constant key it subscripts or
+    tests for membership) is therefore a key the reducers must keep
+    consistent with the new hierarchy: each reducer mentions it (rewrites,
+    pops or updates it).  A validator condition on a key the reducers
+    carry over untouched rejects the reduced tree, although the same
+    taxonomy built directly would be accepted."""
+    db = ctx.db
+    v = db.fn('taxonomy.utils:validate_taxonomy_tree')
+    ctx.touch(v)
+    param = v.params[0] if v.params else 'taxonomy_tree'
+    inspected = dict()
+    for x in ast.walk(v.node):
+        if isinstance(x, ast.Subscript) and isinstance(
+                x.value, ast.Name) and x.value.id == param \
+                and isinstance(x.slice, ast.Constant) and isinstance(
+                    x.slice.value, str):
+            inspected.setdefault(x.slice.value, x)
+        if isinstance(x, ast.Compare) and len(x.ops) == 1 and isinstance(
+                x.ops[0], (ast.In, ast.NotIn)) and isinstance(
+                    x.left, ast.Constant) and isinstance(
+                        x.left.value, str) and isinstance(
+                            x.comparators[0], ast.Name) \
+                and x.comparators[0].id == param:
+            inspected.setdefault(x.left.value, x)
+    inspected.pop('hierarchy', None)
+    reducers = [db.fn('taxonomy.taxonomy_tree:TaxonomyTree.flatten'),
+                db.fn('taxonomy.taxonomy_tree:TaxonomyTree._drop_level')]
+    n = 0
+    for r in reducers:
+        ctx.touch(r)
+        consts = {c.value for c in ast.walk(r.node)
+                  if isinstance(c, ast.Constant) and isinstance(
+                      c.value, str)}
+        for k, site in sorted(inspected.items()):
+            n += 1
+            ok = k in consts
+            ctx.ob(rule, f'{r.name}:{k}', v.loc(site), ok,
+                   f"'{k}' is maintained by {r.name}" if ok else
+                   f"validate_taxonomy_tree inspects '{k}' "
+                   f'(`{unparse(site)[:50]}`), which {r.name} copies over '
+                   'unchanged while it rewrites the hierarchy: the reduced '
+                   'tree can fail a validation that the same taxonomy '
+                   'built directly passes')
+    ctx.ok(rule, 'validator keys', v.loc(),
+           f'{len(inspected)} key(s) besides the hierarchy and the level '
+           f'tables inspected by the validator ({sorted(inspected)}); '
+           f'{n} reducer obligations', nontrivial=True)
